@@ -1,7 +1,7 @@
 """Configuration of ./check for C10 (see tools/props.py)."""
 ENTRY = {'coq_dir': 'C10',
  'harness': 'c10',
- 'cases': {'quick': 320, 'thorough': 2500},
+ 'cases': {'quick': 330, 'thorough': 2200},
  'consts': ['MAX_ADDRESSES',
             'SCORE_CONNECTION_ESTABLISHED',
             'SCORE_CONNECTION_FAILURE_NEG',
@@ -9,95 +9,185 @@ ENTRY = {'coq_dir': 'C10',
             'SCORE_PUBLIC_ADDRESS_BONUS',
             'C10_DIAL_ERROR_LEAVES',
             'C10_ERROR_SCORE_ARMS',
-            'C10_STORE_SITES'],
- 'rule': 'every run starts with 43 systematic cases: (failure or success path: update_address_on_dial_failure, dial_address + DialFailure event, '
-         'dial(peer) + OpenFailure events, dial(peer) + ConnectionOpened with errors, update_address_on_connection_established, dial_address + '
-         'ConnectionEstablished) x (score of the address beforehand: untested private 0, untested global +1, established 100, failed -100, banned '
-         'i32::MIN, raw +7, raw -7), each over EVERY constructible DialError variant (23 with the harness features: Timeout, 5 AddressError, 2 '
-         'DnsError, 15 NegotiationError incl. the 6 ParseError kinds and WebSocket; values built by an exhaustive, wildcard-free table in the '
-         'harness) on one stored address per variant, followed by a rediscovery of all addresses and the dial order; plus a saturation case (raw '
-         'AddressStore inserts of i32::MIN, MIN+1, -100, -1, 0, 1, 100, MAX-1, MAX on new global and private addresses, then overwritten, failed, '
-         'established, rediscovered). Then seeded random cases: a configuration (installed scripted transports tcp/ws, max_outgoing_connections none '
-         'or 0..8) and a history of 6-220 (quick) / 50-400 (thorough) operations over <=8 peers on real Multiaddrs built from abstract shapes '
-         '(ip4/ip6 of class unspecified/loopback/private/global, dns/dns4/dns6, tcp/udp, ws/wss/quic-v1, right/foreign/missing/duplicate /p2p, '
+            'C10_STORE_SITES',
+            'C10_ENTRY_SITES'],
+ 'rule': 'Main stream (harness built with verif+websocket). Every run starts with 43 systematic cases: (failure or success path: '
+         'update_address_on_dial_failure, dial_address + DialFailure event, dial(peer) + OpenFailure events, dial(peer) + ConnectionOpened with '
+         'errors, update_address_on_connection_established, dial_address + ConnectionEstablished) x (score of the address beforehand: untested '
+         'private 0, untested global +1, established 100, failed -100, banned i32::MIN, raw +7, raw -7), each over EVERY constructible DialError '
+         'variant (23 in this build: Timeout, 5 AddressError, 2 DnsError, 15 NegotiationError incl. the 6 ParseError kinds and WebSocket; values '
+         'built by an exhaustive, wildcard-free table in the harness) on one stored address per variant, followed by a rediscovery of all addresses '
+         'and the dial order; plus a saturation case (raw AddressStore inserts of i32::MIN, MIN+1, -100, -1, 0, 1, 100, MAX-1, MAX on new global and '
+         'private addresses, then overwritten, failed, established, rediscovered). Then 4 IP-classification cases: the node listens on '
+         '/ip4/0.0.0.0/tcp/30 and, for ~1270 concrete addresses (first, last and neighbouring addresses of every range std / ip_network 0.4.1 treat '
+         'specially: 0/8, 10/8, 100.64/10, 127/8, 169.254/16, 172.16/12, 192.0.0/24 with the two global exceptions, 192.0.2/24, 192.168/16, '
+         '198.18/15, 198.51.100/24, 203.0.113/24, 224/4, 240/4, broadcast; two addresses of every /8; for IPv6 the neighbourhood of :: and ::1, '
+         'fc00::/7, fe80::/10, fec0::/10, 2001:db8::/32, every multicast scope under four flag values, two addresses for every value of the first '
+         'byte), supported_transport / routing / the parsers on /b/tcp/30/p2p/<p> and add_known_address of it (count 0 exactly for unspecified and '
+         'loopback b, stored score = the public bonus exactly for global b). Then seeded random cases: a configuration (installed scripted '
+         'transports tcp/ws, max_outgoing_connections none or 0..8) and a history of 6-220 (quick) / 50-400 (thorough) operations over <=8 peers on '
+         'real Multiaddrs built from abstract shapes (ip4/ip6 of class unspecified/loopback/private/global in mapped ranges or - one host in eight - '
+         'a concrete boundary / random address, dns/dns4/dns6, tcp/udp with ports 0..65535, ws/wss/quic-v1, right/foreign/missing/duplicate /p2p, '
          'inserted/deleted/swapped/trailing components): register_listen_address (at the start and in between; the stored listen set is dumped), '
-         'add_known_address with one or several addresses (evictions included), dial failures of a random kind and established connections through '
-         "the manager's update functions, raw AddressStore inserts with scores from the whole i32 range (ends, neighbourhood of the constants, "
-         'random), AddressStore::addresses(limit), stateless probes (supported_transport, routing, TCP and WebSocket multiaddr_to_socket_address), '
-         'holding 0..8 established outbound connections to other peers, whole TransportManager::dial(peer) episodes on scripted transports (the '
-         'address lists handed to the TCP and WebSocket open() are recorded, then either every attempt fails (OpenFailure on each transport) or one '
-         'attempt succeeds after the earlier ones on its transport failed (ConnectionOpened with errors, ConnectionEstablished, accept, close); '
-         'attempt i fails with kind errs[i mod |errs|] of a random list of kinds), whole TransportManager::dial_address episodes (stored / fresh / '
-         'arbitrary shapes / registered listen addresses under the local or another peer id; then a DialFailure event of a random kind or '
-         'ConnectionEstablished + accept + close), PublicAddresses add/remove (with, without, foreign peer id, empty); half of the long cases push '
-         ">64 distinct addresses into one peer's store. After every operation the result and the full sorted (address, score) dump of the touched "
-         "store (listen set / public set) are compared with the extracted Coq model; the implementation's own choices (HashSet insertion order of a "
-         'multi-address add, evicted records as logged by AddressStore::insert, order among equal scores, lists given to open()) are inputs that the '
-         'model validates. A case is non-trivial when its trace has >= 8 numbers; distinct = distinct (case, trace) pairs',
- 'trusted_base': ['abstract multiaddress grammar: IPs are a class (unspecified/loopback/private/global) plus an id; the harness maps classes to real '
-                  "ranges (127.1/16, 10.7/16, 8.8/16, ::, ::1, fd00::7:x, 2001:4860::x) so ip_network's is_global and std's "
-                  'is_loopback/is_unspecified are exercised, but only on these ranges',
-                  'a /p2p component always carries a valid peer id (type Protocol::P2p(PeerId) of multiaddr 0.18)',
-                  'the harness is built with litep2p features verif+websocket; quic is compiled out: the QUIC branch of supported_transport / '
-                  'dial_address, the QUIC routing, quic::listener::get_socket_address and NegotiationError::Quic(_) are modelled and covered by the '
-                  'theorems but not exercised against the code',
-                  'tools/gen_c10_errors.py (regex level) reads the variants of DialError and of the enums nested in it from src/error.rs and the '
-                  'arms of the match in AddressStore::error_score + the constants of mod scores from address.rs into coq/gen/DialErrors.v (and the '
-                  'names into harness/src/gen_c10_errors.rs); the model interprets the arm table, C10_error_variants_in_sync ties constructor '
-                  'names/order/feature gates to the source, the harness classifies DialError values with exhaustive wildcard-free matches (a new '
-                  'variant stops the build) and checks at start-up that the value it builds for every index path has, by its Debug name, the variant '
-                  'name the source has at that path and that every compiled-in variant has a constructor; an arm the translator cannot read (guard, '
-                  'binding, nested alternative, block body) is reported as a broken tie',
+         "add_known_address on the manager's handle and (a quarter) through a protocol's real TransportService (half of those without the trailing "
+         'peer id), with one or several addresses (evictions included), dial failures of a random kind and established connections through the '
+         "manager's update functions, raw AddressStore inserts with scores from the whole i32 range, AddressStore::addresses(limit), stateless "
+         'probes, holding 0..8 established outbound connections to other peers, whole TransportManager::dial(peer) episodes on scripted transports '
+         "(the address lists handed to each transport's open() are recorded, then either every attempt fails or one attempt succeeds after the "
+         'earlier ones on its transport failed; attempt i fails with kind errs[i mod |errs|]), whole TransportManager::dial_address episodes (stored '
+         '/ fresh / arbitrary shapes / registered listen addresses under the local or another peer id; then a DialFailure event of a random kind, '
+         "ConnectionEstablished + accept + close, or - one in eight - the transport's dial() returning an error), PublicAddresses add/remove; half "
+         "of the long cases push >64 distinct addresses into one peer's store. Every 8th random case runs at the level of Litep2p: Litep2p::new with "
+         "real TCP / WebSocket listeners on loopback addresses (free ports are probed, the case's abstract ports are translated) and "
+         'Litep2pConfig::known_addresses (own listen addresses under other peer ids, loopback aliases on the listen ports, fresh and arbitrary '
+         'addresses; a quarter configure >64 addresses for one peer), then Litep2p::add_known_address calls (returned counts); the calls made inside '
+         "new() are observed one by one through the hooks' logs. Second stream `aux` (both tiers; harness built with litep2p's quic feature, "
+         'corpus/C10-aux): the same generators with a scripted QUIC transport installed in 3 of 4 cases: QUIC addresses in every operation, a third '
+         'list in dial(peer), QuicListener::get_socket_address in every probe, the 3 QuicError kinds in every sweep (26 kinds). After every '
+         'operation the result and the full sorted (address, score) dump of the touched store (listen set / public set) are compared with the '
+         "extracted Coq model; the implementation's own choices (HashSet insertion order of a multi-address add, evicted records as logged by "
+         'AddressStore::insert, order among equal scores, lists given to open()) are inputs that the model validates. A case is non-trivial when its '
+         'trace has >= 8 numbers; distinct = distinct (case, trace) pairs',
+ 'trusted_base': ['abstract multiaddress grammar: an IP component is a class (unspecified/loopback/private/global) plus an identifier. For the '
+                  'mapped ranges (0.0.0.0, 127.1/16, 10.7/16, 8.8/16, ::, ::1, fd00::7:x, 2001:4860::x) the class is part of the wire code and '
+                  'C10_mapped_ranges proves it is the class of the address; for concrete addresses (IPv4: any; IPv6: s0:s1:0:..:val:..:0) the class '
+                  "is computed by coq/C10/IpClass.v, a hand transcription of std's is_unspecified / is_loopback and of ip_network 0.4.1's is_global "
+                  '(version pinned by C10_ip_network_version; tied by the boundary sweep, not by extraction from the third-party source)',
+                  'a /p2p component always carries a valid peer id (type Protocol::P2p(PeerId) of multiaddr 0.18); DNS names are h<id>.example.org; '
+                  "/ws and /wss carry the path '/' only",
+                  'tools/gen_c10_errors.py (regex level) reads the variants of DialError and of the enums nested in it from src/error.rs, the arms '
+                  'of the match in AddressStore::error_score + the constants of mod scores from address.rs, the address-store write sites of '
+                  'src/transport/manager/*.rs, every call of add_known_address / dial_address in src/**/*.rs, the order of register_listen_address / '
+                  'add_known_address calls in Litep2p::new and the ip_network version of Cargo.lock into coq/gen/DialErrors.v (and the names into '
+                  'harness/src/gen_c10_errors.rs); the model interprets the arm table, C10_error_variants_in_sync / C10_store_sites_in_sync / '
+                  'C10_entry_sites_in_sync tie the tables to the model, the harness classifies DialError values with exhaustive wildcard-free '
+                  'matches and checks at start-up that the value it builds for every index path has, by its Debug name, the variant name the source '
+                  'has at that path and that every compiled-in variant has a constructor; an arm the translator cannot read is reported as a broken '
+                  'tie',
                   'dial(peer) and dial_address are driven end to end on the in-crate scripted transports (verif.rs); the harness does not call '
                   "dial(peer) when the peer's store holds an address of a transport that is not installed or one that does not name the peer "
                   "(reachable only through ill-formed dial results / raw inserts; the manager would wedge the peer in Opening, which is C05's "
                   'subject) - model and harness apply the same guard; every episode is driven to completion so that the peer is Disconnected again '
-                  '(asserted by the harness)',
-                  'two cfg(verif) logging statements inside add_known_address and AddressStore::insert record the HashSet iteration order and the '
-                  'evicted records (thread-local, add-only)'],
- 'level_text': 'Proof: for every configuration, capacity and history (listen addresses registered at any time, additions with any insertion order '
-               'and eviction choices, dial failures of every kind, successes, raw inserts, rediscoveries, held connections, whole dial(peer) and '
-               "dial_address episodes, public-address changes) each peer's store holds at most MAX_ADDRESSES distinct addresses and every stored "
-               'score stays an i32 (the public bonus saturates at both ends); everything add_known_address lets through is unchanged, supported, not '
-               'local w.r.t. the listen addresses registered so far and names the peer, and is_local is monotone in the listen set, so every '
-               'remembered address is attributable, dialable and not local w.r.t. the listen addresses registered before the history (when '
-               'dial_address is only handed acceptable addresses); without that condition every remembered address still names its peer and is '
-               'parsed with that peer by the enabled transport it is routed to, because dial_address stores only what passes its own check (free '
-               'capacity, not literally a listen address, exact host/tcp[/ws|wss]/p2p or host/udp/quic-v1/p2p shape, transport installed), and both '
-               'checks agree on shapes; every address accepted by supported_transport is, over the whole component grammar, parsed by the enabled '
-               'transport it is routed to with that peer id and a specified host; eviction happens only at the bound and removes a minimal-score '
-               'record not above the newcomer, a newcomer is refused only below the minimum. DialError is modelled variant by variant (26 leaves, '
-               'names/order/feature gates proved equal to the ones extracted from src/error.rs) and error_score is the interpretation of the match '
-               'arms extracted from address.rs: every failure kind maps to a strictly negative i32 (never mistaken for a rediscovery), AddressError '
-               'is the only kind mapped to i32::MIN, the rest to CONNECTION_FAILURE; a failure of any kind / a success on a stored address of any '
-               'score re-scores exactly that address (store level and whole-state frame: other peers, listen/public addresses, held connections '
-               'untouched); re-adding known addresses changes nothing and, while the additions fit under the bound, no addition of any addresses '
-               'changes any recorded score; dial_address on a stored address keeps the record and re-scores exactly it with the result of the dial '
-               '(failure of any kind or success), on a new address with room it is remembered with that score; addresses(limit) is a non-increasing '
-               'top-min(limit,n) selection and its validator is sound and satisfiable; when dial(peer) tries addresses, the lists given to the '
-               'transports merge into a valid addresses(limit) selection with limit = max_outgoing_connections minus established outbound '
-               'connections (everything when unlimited), each address goes to the installed transport it is routed to, and the outcome re-scores '
-               'exactly the attempts made (each failed one to the score of its error kind, established score for the one that connected); public '
-               'addresses always end in /p2p/<local> (add/remove specified), the listen set holds each address with and without /p2p/<local>. The '
-               "places where the manager writes into a peer's store (five, extracted from src/transport/manager/*.rs) are proved to be exactly the "
-               "ones the model's operations cover. The model is tied to handle.rs/address.rs/mod.rs/limits.rs/listener.rs/addresses.rs/error.rs by a "
-               'per-operation differential run with store dumps that drives every constructible DialError variant through every failure path on '
-               'addresses of every score class.',
- 'level_note': 'Trusted: Coq kernel, ExtrOcamlBasic extraction, harness and hooks (incl. the scripted transport), the regex translators; IP '
-               'classification only on the mapped ranges; QUIC paths and NegotiationError::Quic proved on the model but not diffed (feature off); '
-               'dial(peer) is not called on stores it could wedge on (guard, see trusted base). Observation (not judged a violation: dial_address is '
-               'an explicit dial request, not an address offer): dial_address remembers addresses that add_known_address would refuse - unspecified '
-               'hosts (/ip4/0.0.0.0/...) and loopback / same-port aliases of a listen address under another peer id; the trace oracle demands for '
-               "them only attribution, an enabled transport's parser and not-literally-a-listen-address (witness in corpus/C10/kinds.case). The "
-               "oracle judges scores by sign (failure < 0, success > 0 and equal to CONNECTION_ESTABLISHED); exact values are the model's business "
-               '(diff).',
- 'assumptions': ['dial results reported by transports outside dial(peer)/dial_address episodes and raw inserts concern addresses that were '
-                 'acceptable for that peer (taken from the store) - needed only for attribution of stored addresses, not for the bound or the i32 '
-                 'range',
-                 'the strong attribution/not-local statement assumes dial_address is handed addresses that add_known_address would accept for the '
-                 'peer they name; the weak one (names the peer, parsed by the enabled transport) needs no such assumption',
+                  '(asserted by the harness); Transport::open returning an error is not produced',
+                  'cfg(verif) logging statements inside add_known_address (insertion order; per call: accepted count and eviction-log mark) and '
+                  'AddressStore::insert (evicted records) (thread-local, add-only); Litep2p::verif_transport_manager; transport::quic::verif '
+                  '(re-export of the QUIC address parser, a value of every QuicError variant)',
+                  'Litep2p-level cases bind real loopback sockets (127.1.x.y) on ports probed at run time and retry with other ports when '
+                  'Litep2p::new fails; the abstract ports of the case are translated both ways'],
+ 'level_text': 'Proof: for every configuration, capacity and history (listen addresses registered at any time, additions through the handle, a '
+               "protocol's TransportService or Litep2p with any insertion order and eviction choices, dial failures of every kind, successes, raw "
+               'inserts, rediscoveries, held connections, whole dial(peer) and dial_address episodes incl. a transport that refuses to start the '
+               "dial, public-address changes) each peer's store holds at most MAX_ADDRESSES distinct addresses and every stored score stays an i32 "
+               '(the public bonus saturates at both ends). Everything add_known_address lets through is unchanged, supported, not local w.r.t. the '
+               'listen addresses registered so far and names the peer; through TransportService it is an offered address that names the peer or an '
+               'offered address without a peer id with the id appended (C10_service_offer_filter); at Litep2p level (new() registers the listen '
+               'addresses, then adds the configured known addresses, then Litep2p::add_known_address) every remembered address is supported, '
+               "attributable, dialable and not local w.r.t. the node's listen addresses, with no assumption (C10_litep2p_level). is_local is "
+               'monotone in the listen set, so every remembered address is attributable, dialable and not local w.r.t. the listen addresses '
+               'registered before the history when dial_address is only handed acceptable addresses; without any condition on what dial_address is '
+               'handed every remembered address names its peer, is parsed with that peer by the enabled transport it is routed to and - since the '
+               "repair of dial_address - is not one of the node's own listen addresses under whatever peer id (C10_remembered_not_own_listen; for "
+               'histories of API calls and complete episodes nothing is assumed at all: C10_api_histories), because dial_address stores only what '
+               'passes its own check (free capacity, not a listen address literally or with the /p2p suffix taken off, exact host/tcp[/ws|wss]/p2p '
+               'or host/udp/quic-v1/p2p shape, transport installed), and both checks agree on shapes; every address accepted by supported_transport '
+               'is, over the whole component grammar, parsed by the enabled transport it is routed to with that peer id and a specified host. '
+               "Concrete IP addresses: std's is_unspecified / is_loopback and ip_network's is_global are transcribed range by range and proved to be "
+               "functions of the model's four classes (unspecified and loopback addresses are never global), so supported_transport, the public "
+               "bonus and is_local_address's socket comparison on concrete addresses are what the model computes (C10_ip_classes_exact, "
+               'C10_ip_predicates_concrete, C10_mapped_ranges). Eviction happens only at the bound and removes a minimal-score record not above the '
+               'newcomer, a newcomer is refused only below the minimum. DialError is modelled variant by variant (26 leaves, names/order/feature '
+               'gates proved equal to the ones extracted from src/error.rs) and error_score is the interpretation of the match arms extracted from '
+               'address.rs: every failure kind maps to a strictly negative i32, AddressError is the only kind mapped to i32::MIN, the rest to '
+               'CONNECTION_FAILURE; a failure of any kind / a success on a stored address of any score re-scores exactly that address (store level '
+               'and whole-state frame); re-adding known addresses changes nothing and, while the additions fit under the bound, no addition changes '
+               'any recorded score; dial_address on a stored address keeps the record and re-scores exactly it with the result of the dial, on a new '
+               'address with room it is remembered with that score, and when the transport refuses to start the dial a stored address keeps its '
+               'score and a new one is remembered as untested; addresses(limit) is a non-increasing top-min(limit,n) selection and its validator is '
+               'sound and satisfiable; when dial(peer) tries addresses, the lists given to the TCP / WebSocket / QUIC transports merge into a valid '
+               'addresses(limit) selection with limit = max_outgoing_connections minus established outbound connections (everything when unlimited), '
+               'each address goes to the installed transport it is routed to, and the outcome re-scores exactly the attempts made; public addresses '
+               'always end in /p2p/<local>, the listen set holds each address with and without /p2p/<local>. The five places where the manager '
+               "writes into a peer's store and the ten places of the crate where an address is offered to the book (none in identify.rs / mdns.rs) "
+               'are extracted from the source and proved to be the ones the model covers. KademliaPeer.address_store as modelled by C14 is proved an '
+               'instance of this store (C10_kad_*). The model is tied to handle.rs/address.rs/mod.rs/limits.rs/listener.rs/quic '
+               'listener/addresses.rs/error.rs/transport_service.rs/lib.rs by a per-operation differential run with store dumps in two harness '
+               'builds (websocket; websocket+quic) that drives every DialError variant through every failure path on addresses of every score class.',
+ 'level_note': 'Trusted: Coq kernel, ExtrOcamlBasic extraction, harness and hooks (incl. the scripted transport), the regex translators; the '
+               "transcription of ip_network 0.4.1's ranges (tied by the boundary sweep and the version pin only); dial(peer) is not called on stores "
+               "it could wedge on (guard, see trusted base); peer_state.rs transitions and TransportManagerHandle::dial are C05's. Two defects of "
+               "the unchanged code were found against the property text and repaired in the repo: F-C10a (dial_address remembered the node's own "
+               'listen address under another peer id) and F-C10b (Litep2p::new filtered the configured known addresses against an empty listen set). '
+               "Decision on dial_address: it is covered by 'an address offered for a peer is remembered only if' (the address book is one, the "
+               "crate's own documentation lists dial_address among the ways addresses are learned); what remains an observation, not a violation: "
+               'dial_address also remembers unspecified hosts (/ip4/0.0.0.0/...) and loopback / same-port aliases of a listen address - the text '
+               "demands 'not one of the node's own listen addresses' (identity modulo the peer id, now enforced on both paths) and 'can be parsed "
+               "and dialed by an enabled transport' (the transport's parser accepts them and the dial is attempted); add_known_address's alias "
+               'heuristic and unspecified-host refusal go beyond the text (witness corpus/C10/kinds.case). The oracle judges scores by sign (failure '
+               "< 0, success > 0 and equal to CONNECTION_ESTABLISHED); exact values are the model's business (diff).",
+ 'assumptions': ['C10_remembered_acceptable only: dial results reported by transports outside dial(peer)/dial_address episodes, raw inserts and the '
+                 'addresses handed to dial_address concern addresses acceptable for that peer; C10_remembered_not_own_listen needs this only of the '
+                 'raw dial results / raw inserts, C10_api_histories and C10_litep2p_level need nothing',
                  'not-local is claimed with respect to the listen addresses registered before an address was offered (an address remembered earlier '
-                 'is not re-checked by the code when a listen address is registered later)',
+                 "is not re-checked when a listen address is registered later); at Litep2p level the transports' listen addresses are registered "
+                 'before anything is offered',
                  'HashMap/HashSet iteration order only influences the insertion order of one add_known_address call, the choice among minimal '
                  'records and the order of equal scores (validated, not assumed)',
-                 'usize: lengths are unbounded naturals; i32 scores are modelled as Z with saturation written out and proved to stay in range']}
+                 'usize: lengths are unbounded naturals; i32 scores are modelled as Z with saturation written out and proved to stay in range',
+                 "C10_kad_*: the sum of the inserted score and the public bonus is an i32 (C14's model adds the bonus without saturation; it uses 0 "
+                 'and +-100)'],
+ 'aux_stream': {'tiers': ['quick', 'thorough'],
+                'features': 'quic,rsa',
+                'target_dir': 'target-quic',
+                'args': '',
+                'cases': {'quick': 110, 'thorough': 900},
+                'corpus': 'corpus/C10-aux'},
+ 'coq_deps': ['C14'],
+ 'clause_map': [['an address offered for a peer is remembered only if it names that peer',
+                 'C10_offer_filter, C10_remembered_dialable, C10_remembered_not_own_listen, C10_api_histories, C10_litep2p_level, '
+                 'C10_dial_address_filter',
+                 'main: ops 0/13/10/15 with right/foreign/missing/duplicate /p2p, store dump after every op; oracle add_ok / dial_ok_weak (names)'],
+                ['(or no peer, in which case the id is appended)',
+                 'C10_service_offer_filter (TransportService appends), C10_offer_filter (handle: an address without /p2p is not supported)',
+                 'main: op 13 on the real TransportService, half of the offers without peer id'],
+                ["is not one of the node's own listen addresses",
+                 'C10_offer_filter (is_local = false), C10_listen_monotone, C10_listen_set, C10_remembered_not_own_listen, C10_api_histories, '
+                 'C10_litep2p_level, C10_dial_address_filter, C10_entry_sites_in_sync (order in Litep2p::new), C10_ip_predicates_concrete (socket '
+                 'comparison on concrete IPs)',
+                 'main: listen ops + own listen addresses under local/other peer ids through ops 0/13/10/15 (corpus own_listen.case); Litep2p-level '
+                 'cases with real listeners (corpus lp.case); IP sweep (loopback aliases of 0.0.0.0:30)'],
+                ['can be parsed and dialed by an enabled transport',
+                 'C10_accept_implies_dialable, C10_remembered_acceptable, C10_remembered_dialable, C10_supported_implies_dial_address, '
+                 'C10_dial_tries (each address to the installed transport it is routed to)',
+                 'main + aux: probe op (supported_transport, routing, TCP / WebSocket / QUIC parsers), lists handed to open() per transport; oracle '
+                 'dial_ok / OProbe / ODial route checks'],
+                ['the addresses remembered per peer never exceed the fixed bound',
+                 'C10_bound, C10_bound_default, C10_step_preserves, C10_scores_in_i32, C10_saturation',
+                 'main: fill cases (>64 addresses, also inside Litep2p::new); oracle store_ok on every dump'],
+                ['when the bound is reached the lowest-scored address is the one displaced',
+                 'C10_evict_min, C10_drop_only_below_min, C10_insert_frame, C10_choice_resolvable, C10_kad_evict_min',
+                 'main: evicted records logged by AddressStore::insert are model inputs (validated); oracle kept_or_min / count_gone <= count_new'],
+                ['dial successes and failures re-score exactly the address used',
+                 'C10_rescore_exact, C10_failure_rescores_any_kind, C10_dial_failure_step, C10_established_step, C10_dial_address_known_step, '
+                 'C10_dial_address_new_step, C10_dial_address_refused_step, C10_dial_all_fail, C10_dial_success, C10_error_score_negative, '
+                 'C10_address_error_only_banned, C10_error_score_table, C10_success_score_positive, C10_error_variants_in_sync, '
+                 'C10_error_kinds_enumerated, C10_store_sites_in_sync, C10_kad_rescore_exact',
+                 'main + aux: 43-case sweep (6 paths x 7 prior scores x every DialError kind; 26 kinds in aux); oracle rescore_ok / outcome_ok'],
+                ['and are not erased by later rediscovery',
+                 'C10_rediscovery_keeps, C10_additions_keep_scores, C10_insert_frame',
+                 'main: every sweep case ends with a rediscovery of all addresses; oracle add_ok (kept_or_min)'],
+                ['a dial by peer id tries addresses in non-increasing score order',
+                 'C10_dial_order, C10_dial_order_validator_sound, C10_dial_order_validator_complete, C10_dial_tries',
+                 'main + aux: op 3 (addresses(limit)) and dial episodes; oracle addresses_ok on the merged lists, nonincreasing per list'],
+                ['limited by free outbound capacity',
+                 'C10_free_capacity, C10_dial_tries',
+                 'main: op 6 holds 0..8 outbound connections under max_outgoing_connections none/0..8; oracle free_capacity'],
+                ['for all multiaddress shapes (ip4/ip6/dns variants, ..., unspecified and loopback IPs, trailing components)',
+                 'all of the above are stated over the whole component grammar; C10_ip_classes_exact, C10_mapped_ranges, C10_ip_network_version for '
+                 'concrete IPs',
+                 'main: shape generator + IP boundary sweep'],
+                ['public / listen address bookkeeping used by the filter',
+                 'C10_public_addresses_local, C10_public_add, C10_public_remove, C10_listen_set',
+                 'main: ops 5/11/12 with dumps'],
+                ['the same store type inside the Kademlia routing table',
+                 'C10_kad_embedding, C10_kad_store_is_instance, C10_kad_addresses_is_instance, C10_kad_evict_min, C10_kad_rescore_exact',
+                 "C14's own harness (coq/C14/AddrModel.v is diffed there)"]]}
